@@ -1764,6 +1764,9 @@ def check_C20(ck):
                  "g1 wnafhist bs:%s:5:%x;sb:%x:%s;bs:%s:300:%x" % (g1.J(P), k, k, g1.J(g1.gen), g1.J(P), k // 3),
                  "g1 wnafhist bs:%s:5:%x;bs:%s:5:0;sb:%x:%s;sb:0:%s;bsh:%s:2:0;bs:%s:2:1" % (g1.J(P), k, g1.J(P), k, g1.J(P), g1.J(P), g1.J(P), g1.J(P)),
                  "g2 wnafhist sb:%x:%s;sb:0:%s;bs:%s:9:%x;bs:%s:9:0" % (k, g2.J(Qp), g2.J(Qp), g2.J(Qp), k, g2.J(Qp)),
+                 # table sizes that shrink, grow and change base: big table, tiny window on another base, medium window, shared views in between
+                 "g1 wnafhist bs:%s:%x:%x;bs:%s:1:%x;bsh:%s:1:%x;bs:%s:a:%x;sb:%x:%s" % (g1.J(P), rng.choice([100, 200, 300]), k, g1.J(g1.gen), k // 5, g1.J(g1.gen), k // 9, g1.J(P), k // 11, k, g1.J(g1.gen)),
+                 "g2 wnafhist bs:%s:%x:%x;bs:%s:2:%x;sbh:%x:%s;bs:%s:2c:%x" % (g2.J(Qp), rng.choice([121, 300]), k, g2.J(g2.gen), k // 3, k // 7, g2.J(g2.gen), g2.J(Qp), k // 13),
                  "g2 pip 4 %s;%s %x;%x" % (g2.A(Qp), g2.A(g2.gen), k, k // 7),
                  "g1 enc_c %s" % g1.A(P), "fq12 frob %s 7" % O.show_f12(O.f12_unflat([rng.randrange(Q) for _ in range(12)]))]
     base = ck.run([("sequential", w) for w in work])
